@@ -146,7 +146,10 @@ fn driver_history(p: &std::path::PathBuf, text: &str, other: Option<&std::path::
         for (stage, dir) in [("x86_64", driver::paths::Paths::x86_64_assembly_dir()), ("aarch64", driver::paths::Paths::aarch64_assembly_dir()), ("rv64", driver::paths::Paths::risc_v_assembly_dir())] {
             let Some((_, reference)) = asm_ref.iter().find(|(s, _)| s == stage) else { continue };   // the back end panicked on this program (capacity / no print)
             let f = dir.join(&stem);
-            let _ = std::fs::remove_file(&f);
+            // an earlier, LONGER output at the same path (the output name is only the file name of the source): what the
+            // driver writes must not depend on what was there before
+            let _ = std::fs::create_dir_all(&dir);
+            let _ = std::fs::write(&f, format!("; stale output of an earlier compilation\n{}", "stale_label_: jmp stale_label_\n".repeat(reference.len() / 16 + 64)));
             let res = match stage {
                 "x86_64" => drv.print_x86_64(&p, driver::PrintMode::Textual).map(|_| ()),
                 "aarch64" => drv.print_aarch64(&p, driver::PrintMode::Textual).map(|_| ()),
